@@ -523,16 +523,26 @@ class SeqIter:
 
 
 def seq_of(ex, v):
-    """materialise an iterator / collection value into a python list of elements (consumes)."""
+    """materialise an iterator / collection value into a python list of elements (consumes).
+    An owned collection yields its elements, a borrowed one references to them."""
+    borrowed = isinstance(v, Ref)
     v = deref(v) if not isinstance(v, SeqIter) else v
     if isinstance(v, SeqIter):
         r = v.rest(); v.i = len(v.items); return r
     if isinstance(v, RangeIter): return v.drain(ex)
     if isinstance(v, Struct) and simple_name(v.ty) == 'Range': return RangeIter(v).drain(ex)
-    if isinstance(v, VecV): return list(v.items)
-    if isinstance(v, SliceV): return list(v.elems())
+    if isinstance(v, VecV): return [Ref(v.items, i) for i in range(len(v.items))] if borrowed else list(v.items)
+    if isinstance(v, SliceV): return [Ref(v.vec.items, i) for i in range(v.lo, v.hi)]
     if isinstance(v, Enum) and simple_name(v.ty) == 'Option': return list(v.f)
-    if hasattr(v, 'iter_items'): return v.iter_items(ex)
+    if hasattr(v, 'iter_items'):
+        items = v.iter_items(ex)
+        if borrowed: return items
+        out = []
+        for it in items:
+            it = deref(it)
+            if isinstance(it, Struct) and it.ty == '()' and all(isinstance(x, Ref) for x in it.f): it = Struct('()', [x.get() for x in it.f])
+            out.append(it)
+        return out
     raise Unsupported('cannot iterate ' + type(v).__name__)
 
 
@@ -1222,3 +1232,8 @@ def str_case(ex, args, m):
 
 @model(r'<(?:std::ops::)?Range<.*> as Clone>::clone|<(?:std::option::)?Option<.*> as Clone>::clone|<\(.*\) as Clone>::clone|<(?:std::result::)?Result<.*> as Clone>::clone')
 def lib_clone(ex, args): return clone_val(deref(args[0]))
+
+
+@model(r'<\[.*\] as ToOwned>::to_owned|(?:core::slice::|std::slice::|alloc::slice::)?<impl \[.*\]>::to_owned')
+def slice_to_owned(ex, args):
+    s = as_slice(args[0]); return VecV([clone_deep(ex, x) for x in s.elems()])
